@@ -2,8 +2,15 @@
    Statements only; proofs are in Proofs/Conductor*.v. The model (Model/Conductor.v) describes the conductor with the
    repairs of fixes/C10-*.diff and fixes/C09-*.diff; a destructor the conductor runs under its own mutex is modelled by
    `dtor_locked` (Hang when it would lock the mutex again). *)
-Require Import V.Base.MachineInt V.Generated.GenConsts V.Model.Conductor V.Proofs.ConductorBase V.Proofs.ConductorInv
-               V.Proofs.ConductorProofs V.Proofs.ConductorClose V.Oracle.C09Oracle V.Oracle.C10Oracle.
+Require Import V.Base.MachineInt.
+Require Import V.Generated.GenConsts.
+Require Import V.Model.Conductor.
+Require Import V.Proofs.ConductorBase.
+Require Import V.Proofs.ConductorInv.
+Require Import V.Proofs.ConductorProofs.
+Require Import V.Proofs.ConductorClose.
+Require Import V.Oracle.C09Oracle.
+Require Import V.Oracle.C10Oracle.
 Open Scope Z_scope.
 
 (* ---- C10_total: whatever the state and the operation - any driver event with any field values, an overrun or
